@@ -3,27 +3,36 @@ from __future__ import annotations
 
 import ast
 
-from sa.astx import call_name, src
+from sa.astx import call_attr, call_name, src
 from sa.selftest import Mutant, Silent
 from sa.source import AnalysisError, class_assigns
-from sa.props._lib_i import sect, COMPAT, BlockRaised, FollowModule, NotPure, Raised, eval_block, interp, peval, words
+from sa.props._lib_i import sect, COMPAT, Abstain, BlockRaised, FollowModule, NotPure, domain_argument, kinded, structural, Raised, eval_block, interp, peval, words
 
 PROPERTY = "C42"
+RULE_KINDS = {
+    "reader-table/": "structural",                       # transformer table of collapseStrings + call graph to the tokenizer
+    "quote/writer-semantics": "finite-exhaustive",       # character-wise rewrite (premise checked) over the complete class alphabet
+    "quote/writer-semantics (bounded)": "bounded",
+    "reader/paren-transitions": "finite-exhaustive",     # (in-quote state) x (unit class) table of the scanning loop, premise checked
+    "reader/paren-transitions (bounded)": "bounded",
+    "reader/undoes-quoting": "finite-exhaustive",        # tokenizer decisions read the unit, its predecessor and two flags (premise checked)
+    "literal/needs-literal": "bounded", "writer/item-forms": "bounded", "reader/atoms-and-nil": "bounded", "reader/literal-bypasses-tokenizer": "bounded",
+    "roundtrip/": "bounded",
+}
 IMAP = "mail/imap4.py"
 BASIC = "protocols/basic.py"
-TECHNIQUE = "finite evaluation of writer rewrites and reader transition tables"
+TECHNIQUE = "table/call-graph rule on collapseStrings; finite-exhaustive class enumeration; bounded round trips"
 EXPLANATION = (
-    "Writer: _quote is evaluated on every payload over {backslash, quote, other}^<=4 against the RFC 3501 quoted-string rewrite "
-    "(escape unit first, then the quote); _needsLiteral must hold for every string containing CR or LF; one iteration of "
-    "collapseNestedLists is evaluated per item kind (None, int, plain bytes, bytes needing a literal, nested list) against NIL / "
-    "decimal atom / quoted / '{N}' CRLF data with N the exact length / parenthesised recursion. Reader: the loop body of "
-    "parseNestedParens is evaluated as a (state, unit) transition table (escape consumes the next unit inside quotes, specials "
-    "are inert inside quotes, a literal written by the writer is skipped by length exactly, parens push / pop); collapseStrings "
-    "routes literal tuples around the tokenizer; splitQuoted's loop is evaluated on every writer output for payloads <=3 units: "
-    "escaped quotes are undone, atoms / NIL / quoted 'NIL' are distinguished, and the doubled escape unit must be collapsed - "
-    "it is not (no branch on the escape unit): known finding F42. The whole reader (parseNestedParens -> collapseStrings -> splitQuoted) is "
-    "also evaluated on the writer's output for a set of nested structures incl. literals whose payload starts with CR / LF. "
-    "Not decided: equality of arbitrary nested structures."
+    'STRUCTURAL: in collapseStrings the transformer that the predicate selects for literal tuples does not reach the tokeni'
+    'zer in the call graph and the one for plain units does. FINITE-EXHAUSTIVE (premises checked on the code): _quote only '
+    'applies single-unit .replace() rewrites, so payloads over {backslash, quote, other}^<=4 are complete (escape unit firs'
+    't, then the quote); the scanning loop of parseNestedParens decides on (in-quote flag) x (unit class) by comparison wit'
+    'h constants - every cell of that table incl. literals framed as the writer frames them (payloads beginning with CR / L'
+    'F); splitQuoted decides on the unit, its predecessor and two flags - every writer output for payloads <= 3 over the cl'
+    'ass alphabet: escaped quotes are undone, the doubled escape unit is not collapsed (known finding F42, two constructs).'
+    ' BOUNDED only: _needsLiteral on strings over {CR, LF, other}^<=3, one collapseNestedLists call per item kind and posit'
+    'ion (kinds beyond None/int/bytes/list are application objects), atoms / NIL, collapseStrings and the whole reader on e'
+    'numerated structures - structure equality over all nested inputs is an infinite domain.'
 )
 ASSUMPTIONS = [
     "_matchingString / iterbytes / networkString behave as documented in twisted.python.compat (modelled)",
@@ -94,9 +103,13 @@ def check(ctx):
             if got != ref_quote(p):
                 bad = (p, got if err is None else err)
                 break
-        ctx.check(bad is None, "quote/writer-semantics", q,
+        meths = {call_attr(c) for c in ast.walk(fq) if isinstance(c, ast.Call) and isinstance(c.func, ast.Attribute)}
+        ex_q = meths <= {"replace"} and not any(isinstance(x, (ast.While, ast.If)) for x in ast.walk(fq))
+        why_q = ("_quote only applies .replace() rewrites of single units: it acts character-wise, so words over {backslash, quote, other} are a complete domain"
+                 if ex_q else "_quote is not a plain sequence of single-unit rewrites: bounded evidence")
+        ctx.check(bad is None, kinded("quote/writer-semantics", ex_q), q,
                   bad and f"_quote({bad[0]!r}) gives {bad[1]!r}; an RFC 3501 quoted string needs {ref_quote(bad[0])!r} (escape the backslash first, then the quote)",
-                  detail=f"{n} payloads over {{\\\\, \", a}}^<=4")
+                  detail=f"{n} payloads over {{\\\\, \", a}}^<=4; " + why_q)
         funcs["_quote"] = quote
 
     # ---- writer: _needsLiteral -----------------------------------------------------------------------------
@@ -169,6 +182,10 @@ def check(ctx):
         length = [k for k, v in init.items() if isinstance(v, ast.Call) and call_name(v) == "len"]
         ctx.need(len(idx) == 1 and len(flag) == 1 and len(stack) == 1, f"index / in-quote flag / content stack of {q}")
         idx, flag, stack = idx[0], flag[0], stack[0]
+        ex_p, why_p = domain_argument([fp], inputs={sname, hl}, state={idx, flag, stack} | set(length))
+        if not ex_p:
+            ctx.note(f"{q}: domain argument not established ({why_p}); the step table is bounded evidence")
+        rule_p = kinded("reader/paren-transitions", ex_p)
 
         def step(s, in_quote, depth=1, handle=1):
             st = [[] for _ in range(depth)]
@@ -183,7 +200,7 @@ def check(ctx):
 
         def expect(case, s, in_quote, want, depth=1, why=""):
             got = step(s, in_quote, depth)
-            ctx.check(got == want, "reader/paren-transitions", f"{q} | {case}",
+            ctx.check(got == want, rule_p, f"{q} | {case}",
                       f"at {s!r} ({'inside' if in_quote else 'outside'} a quoted string) one scanning step gives {got!r}; required {want!r}. {why}")
 
         expect("in quotes: escape + quote", b'\\"x', 1, {"i": 2, "q": True, "stack": [[b'\\"']], "raised": None},
@@ -194,6 +211,7 @@ def check(ctx):
         for sp in (b"(", b")", b"[", b"]", b"{"):
             expect("in quotes: specials are inert", sp + b"3}x", 1, {"i": 1, "q": True, "stack": [[sp]], "raised": None},
                    why="list and literal syntax inside a quoted string is data")
+        expect("in quotes: plain unit", b"ax", 1, {"i": 1, "q": True, "stack": [[b"a"]], "raised": None})
         expect("outside: opening quote", b'"x', 0, {"i": 1, "q": True, "stack": [[b'"']], "raised": None})
         expect("outside: plain unit", b"ax", 0, {"i": 1, "q": False, "stack": [[b"a"]], "raised": None})
         for o in (b"(", b"["):
@@ -233,6 +251,53 @@ def check(ctx):
                   detail=f"{len(structures)} structures")
 
     # ---- reader: collapseStrings routes literals around the tokenizer ---------------------------------------------------
+    with structural(ctx, "reader-table/literal-route", "reader/literal-bypasses-tokenizer (bounded)"):
+        fs = ctx.func(IMAP, "collapseStrings")
+        q = "twisted.mail.imap4.collapseStrings"
+        routes = [c for c in ast.walk(fs) if isinstance(c, ast.Call) and call_name(c) == "splitOn" and len(c.args) == 3]
+        if not routes:
+            raise Abstain("no splitOn(sequence, predicate, transformers) call")
+
+        def resolve(e):
+            """expression -> its defining expression (local single assignment or module level), else itself"""
+            if isinstance(e, ast.Name):
+                defs = [st.value for st in ast.walk(fs) if isinstance(st, ast.Assign) and len(st.targets) == 1 and isinstance(st.targets[0], ast.Name) and st.targets[0].id == e.id]
+                if len(defs) == 1:
+                    return defs[0]
+                m = mod.module_assign(e.id)
+                if m is not None:
+                    return m
+                fn = next((st for st in mod.tree.body if isinstance(st, ast.FunctionDef) and st.name == e.id), None)
+                if fn is not None:
+                    return fn
+            return e
+
+        def calls_tokenizer(fn_node, seen=()):
+            for c in ast.walk(fn_node):
+                if isinstance(c, ast.Call) and isinstance(c.func, ast.Name):
+                    if c.func.id == "splitQuoted":
+                        return True
+                    h = next((st for st in mod.tree.body if isinstance(st, ast.FunctionDef) and st.name == c.func.id), None)
+                    if h is not None and h.name not in seen and h.name not in ("collapseStrings", "splitOn") and calls_tokenizer(h, seen + (h.name,)):
+                        return True
+            return False
+        for r in routes:
+            pred_e, tran_e = resolve(r.args[1]), resolve(r.args[2])
+            if not isinstance(tran_e, ast.Dict) or not isinstance(pred_e, (ast.Lambda, ast.FunctionDef)):
+                raise Abstain("predicate / transformer table not a lambda-or-function and a dict display")
+            try:
+                pf = peval(pred_e, dict(env0), funcs) if isinstance(pred_e, ast.Lambda) else interp(pred_e, funcs, env0)
+                k_lit, k_plain = pf((b"x",)), pf(b"x")
+                table = {peval(k, dict(env0), funcs): resolve(v) for k, v in zip(tran_e.keys, tran_e.values)}
+            except (NotPure, Raised, BlockRaised) as ex:
+                raise Abstain(f"predicate / table keys not evaluable ({ex})")
+            if k_lit == k_plain or k_lit not in table or k_plain not in table:
+                raise Abstain("predicate does not separate literal tuples from plain units through the table keys")
+            ctx.check(not calls_tokenizer(table[k_lit]), "reader-table/literal-route", q + " | transformer selected for literal tuples",
+                      "the transformer selected for literal data (tuples from parseNestedParens) calls the tokenizer: quotes, backslashes and spaces inside a literal are re-interpreted",
+                      detail="item kinds {literal tuple, plain unit} are the two classes the predicate distinguishes")
+            ctx.check(calls_tokenizer(table[k_plain]), "reader-table/plain-route", q + " | transformer selected for plain units",
+                      "runs of plain units are no longer handed to the tokenizer")
     with sect(ctx, 'reader: collapseStrings routes literals around the tokenizer'):
         fs = ctx.func(IMAP, "collapseStrings")
         q = "twisted.mail.imap4.collapseStrings"
@@ -263,6 +328,10 @@ def check(ctx):
         fsq = ctx.func(IMAP, "splitQuoted")
         q = "twisted.mail.imap4.splitQuoted"
         split = interp(fsq, funcs, env0)
+        st_names = {t.id for st in ast.walk(fsq) if isinstance(st, ast.Assign) for t in st.targets if isinstance(t, ast.Name)}
+        ex_s, why_s = domain_argument([fsq], inputs={a.arg for a in fsq.args.args}, state=st_names, helpers={h.name for h in mod.tree.body if isinstance(h, ast.FunctionDef)})
+        if not ex_s:
+            ctx.note(f"{q}: domain argument not established ({why_s}); the payload enumeration is bounded evidence")
         classes = {
             "<escaped quote inside quotes>": [], "<escape unit inside quotes>": [], "<escape unit before closing quote>": [], "<plain quoted strings>": [],
         }
